@@ -293,8 +293,9 @@ func newTCPPair(cszx, sszx blockwise.SZX, maxSize uint32) (*pairEnv, error) {
 	e.cli, e.srv = cli, srv
 	// two go-coap stream endpoints never announce block-wise to each other: the relay does it
 	csm := ref.EncodeTCP(ref.Msg{Code: 7<<5 | 1, Opts: []ref.Opt{{ID: 2, Val: ref.Uint(maxSize)}, {ID: 4, Val: nil}}})
-	csc.Feed(csm)
-	ssc.Feed(csm)
+	// (in effect before the first request is issued: sim.AnnounceBlockwise waits until each connection has processed it)
+	sim.AnnounceBlockwise(csc, cli, csm)
+	sim.AnnounceBlockwise(ssc, srv, csm)
 	e.wg.Add(1)
 	go func() {
 		defer e.wg.Done()
